@@ -7,6 +7,7 @@ import (
 	"fmt"
 	"math/rand"
 	"reflect"
+	"sort"
 	"strings"
 	"time"
 	"unicode"
@@ -213,15 +214,19 @@ func lowerFirst(s string) string {
 // Names that differ by more than the case of the first letter. Taken from the comments in the struct
 // declarations (u_public.go:269, 356, 366) and from getPrivateObj (Prfv2 is the prf).
 var alias = map[string]map[string]string{
-	"ClientHello":  {"Raw": "original", "Ems": "extendedMasterSecret"},
-	"ServerHello":  {"Raw": "original"},
-	"FinishedHash": {"Prfv2": "prf"},
+	"ClientHello": {"Raw": "original", "Ems": "extendedMasterSecret"},
+	"ServerHello": {"Raw": "original"},
+	// Prf is the deprecated old-signature hook (a different func type); only Prfv2 is the prf (u_public.go:563-566)
+	"FinishedHash": {"Prfv2": "prf", "Prf": "-"},
 }
 
 // counterpart of public field F in the private struct, "" if there is none.
 func counterpart(pair tls.VerifC31Pair, F string) string {
 	want := lowerFirst(F)
 	if a, ok := alias[pair.Name][F]; ok {
+		if a == "-" {
+			return ""
+		}
 		want = a
 	} else if pair.Name == "CertReq13" && F == "Raw" {
 		// documented as deprecated and not read (u_public.go:190-192); toPublic derives it by re-marshalling
@@ -309,7 +314,87 @@ func coqBytesOf(v reflect.Value) string {
 	for i := range b {
 		b[i] = byte(v.Index(i).Uint())
 	}
-	return vh.Bytes(b)
+	return cb(b)
+}
+
+// cb: Coq term for a byte string. Long strings are packed 7 bytes per primitive-int literal
+// (decoded by `ub` in Corr/C31Corr.v): Coq parses these an order of magnitude faster than a list of N literals.
+func cb(b []byte) string {
+	if len(b) <= 10 {
+		return vh.Bytes(b)
+	}
+	var sb strings.Builder
+	sb.WriteString("(ub [")
+	last := 0
+	for i := 0; i < len(b); i += 7 {
+		j := i + 7
+		if j > len(b) {
+			j = len(b)
+		}
+		var x uint64
+		for _, y := range b[i:j] {
+			x = x<<8 | uint64(y)
+		}
+		if i > 0 {
+			sb.WriteByte(';')
+		}
+		fmt.Fprintf(&sb, "%d", x)
+		last = j - i
+	}
+	fmt.Fprintf(&sb, "]%%uint63 %d%%nat)", last)
+	return sb.String()
+}
+
+// ---- buffered cases, spread over the 400-case shards by size so that the shards evaluate in similar time ----
+type pcase struct {
+	kind, coq, key string
+	nontrivial     bool
+	sample         any
+}
+
+var pending []pcase
+
+func addCase(kind, coq, key string, nontrivial bool, sample any) {
+	pending = append(pending, pcase{kind, coq, key, nontrivial, sample})
+}
+
+func flushCases(c *vh.Ctx) {
+	const shard = 400
+	n := len(pending)
+	if n == 0 {
+		return
+	}
+	nb := (n + shard - 1) / shard
+	idx := make([]int, n)
+	for i := range idx {
+		idx[i] = i
+	}
+	sort.SliceStable(idx, func(a, b int) bool { return len(pending[idx[a]].coq) > len(pending[idx[b]].coq) })
+	bins := make([][]int, nb)
+	load := make([]int, nb)
+	capa := make([]int, nb)
+	for i := range capa {
+		capa[i] = shard
+	}
+	capa[nb-1] = n - shard*(nb-1)
+	for _, i := range idx {
+		best := -1
+		for b := 0; b < nb; b++ {
+			if len(bins[b]) < capa[b] && (best < 0 || load[b] < load[best]) {
+				best = b
+			}
+		}
+		bins[best] = append(bins[best], i)
+		load[best] += len(pending[i].coq) + 200
+	}
+	for _, bin := range bins {
+		sort.Ints(bin)
+		for _, i := range bin {
+			p := pending[i]
+			c.Case(p.kind, p.coq, p.key, p.nontrivial, p.sample)
+		}
+	}
+	pending = nil
 }
 
 func coqVal(v reflect.Value, owner string) string {
